@@ -1,11 +1,11 @@
 """C13 - volatile functions are never frozen (structural clauses)."""
 import ast
 
-from ..model import AnalysisError, own_nodes
+from ..model import AnalysisError, own_nodes, norm_src
 from ..peval import (FuncV, Ext, CallV, DictV, SeqV, TokenV, Const, is_const)
 from ..report import RuleResult
 from ..cfg import CFG
-from ..util import (key_of, src, resolve, is_ext, module_token, kwarg,
+from ..util import (assign_pairs, key_of, src, resolve, is_ext, module_token, kwarg,
                     strip_not, stmts_of, call_name, names_in)
 from .common import reg_targets, match_source, source_reach, witness
 
@@ -201,6 +201,56 @@ def rule_mask(ctx):
     else:
         raise AnalysisError('AstBuilder.append: cannot find how extra inputs '
                             'are merged into the node inputs')
+    # a compiled token function reaches add_function only whole: taking the
+    # dict apart by hand (func['function'], .__wrapped__) loses extra_inputs,
+    # i.e. the COMPILING flag the impure wrapper masks on
+    rr.instances += 1
+    compiled = set()
+    for t, v, _st in assign_pairs(app):
+        if isinstance(t, ast.Name) and isinstance(v, ast.Call) and \
+                call_name(v) == 'compile' and isinstance(v.func, ast.Attribute):
+            compiled.add(t.id)
+    if not compiled:
+        raise AnalysisError('AstBuilder.append: no `x = token.compile()`')
+    partial_use = None
+    n_add = 0
+    for n in own_nodes(app):
+        if not (isinstance(n, ast.Call) and call_name(n) == 'add_function'):
+            continue
+        n_add += 1
+        fexprs = list(n.args[1:2]) + [k.value for k in n.keywords
+                                      if k.arg == 'function']
+        for k in n.keywords:
+            if k.arg is None and isinstance(k.value, ast.Name):
+                # **kw: the dict literal(s) bound to that name
+                for t, v, _st in assign_pairs(app):
+                    if isinstance(t, ast.Name) and t.id == k.value.id and \
+                            isinstance(v, ast.Dict):
+                        for kk, vv in zip(v.keys, v.values):
+                            if isinstance(kk, ast.Constant) and \
+                                    kk.value == 'function':
+                                fexprs.append(vv)
+        for e in fexprs:
+            if isinstance(e, ast.Name):
+                continue
+            if names_in(e) & compiled or any(
+                    isinstance(x, ast.Call) and call_name(x) == 'compile'
+                    for x in ast.walk(e)):
+                partial_use = partial_use or (n, e)
+    if n_add == 0:
+        raise AnalysisError('AstBuilder.append: no add_function call')
+    if partial_use is not None:
+        n, e = partial_use
+        rr.fail(key_of(app, 'compiled function taken apart'),
+                'AstBuilder.append registers `%s` as a node function: a piece '
+                'of the value returned by token.compile(), not the value '
+                'itself, so the extra inputs of a volatile function (the '
+                'COMPILING flag) are not wired and the bare core is evaluated '
+                '- and frozen - when the formula is compiled' % norm_src(e),
+                file=app.module.rel, function=app.qualname, line=n.lineno)
+    else:
+        rr.ok('every node function taken from token.compile() is registered '
+              'whole (%d add_function calls)' % n_add, app.module.rel)
     rr.instances += 1
     # add_data for extras guarded by `is not sh.NONE`
     guarded = False
